@@ -74,5 +74,18 @@ theorem no_evaluation_before_validation {f : String} (h : Reach Gen.callEdges Ge
     f ∉ Gen.objfunCallers ∧ f ∉ ["objfun", "h", "prox_uh", "nsamples", "solve_main", "dykstra"] :=
   prelude_facts.2.2 f (reach_in_closed Gen.callEdges Gen.solvePreludeCalls preludeReach prelude_facts.1 prelude_facts.2.1 h)
 
+/-! ### every call of the residual function goes through the two counted places -/
+
+/-- the residual function is called by `eval_least_squares_with_regularisation` only; that helper is called by
+    `Controller.evaluate_objective` and by `solve_main` (the block at x0) only — the two sampling loops translated in
+    Gen/EvalLoopFns.lean, where `nf` / `nx` are advanced; `evaluate_objective` is called by the seven places whose skeletons are in
+    Gen/CtrlSkel.lean and Gen/MainLoop.lean -/
+theorem choke_points :
+    Gen.objfunCallers = ["eval_least_squares_with_regularisation"] ∧
+    (Gen.callEdges.filter (fun e => e.2 == "eval_least_squares_with_regularisation")).map (·.1) = ["evaluate_objective", "solve_main"] ∧
+    (Gen.callEdges.filter (fun e => e.2 == "evaluate_objective")).map (·.1) =
+      ["add_new_direction_while_growing", "geometry_step", "initialise_coordinate_directions", "initialise_random_directions",
+       "move_furthest_points_momentum", "soft_restart", "solve_main"] := by decide +kernel
+
 end TrySites
 end Dfols
